@@ -342,6 +342,16 @@ impl<'t, 'a> Gen<'t, 'a> {
             10 => {
                 let op = *self.t.pick(&["+=", "=", "+=", "-=", "??=", "+=", "||=", "&&=", "**="]);
                 let mut target = self.assignable_ident();
+                if op == "+=" && self.t.chance(12) {
+                    // `s += x => x + 1`: an arrow function is a legal right-hand side as it stands
+                    self.tag("add-assign-arrow");
+                    let p = self.fresh("p");
+                    self.push_fn_scope(&[p.clone()], false, false, true);
+                    let body = self.plus(1);
+                    self.scopes.pop();
+                    let body_text = if body.starts_ambiguous() { format!("({})", body.print()) } else { body.print() };
+                    return E::Assign("+=", target.bx(), E::Raw(format!("{p} => {body_text}")).bx()).paren();
+                }
                 if self.t.chance(20) {
                     // `(x) += v`: a parenthesised identifier is a legal target too
                     self.tag("paren-target");
@@ -401,7 +411,13 @@ impl<'t, 'a> Gen<'t, 'a> {
                 let op = *self.t.pick(&["typeof", "!", "-", "void", "+", "~", "delete"]);
                 if op == "delete" {
                     // only member operands (identifier operands are illegal in strict code)
-                    let obj = self.receiver(d1);
+                    let obj = if self.t.chance(60) {
+                        // `delete a?.m(x).p`: the operand continues an optional chain that holds a configured method
+                        self.tag("delete-opt-chain");
+                        self.opt_chain(d1.min(1))
+                    } else {
+                        self.receiver(d1)
+                    };
                     let inner = if self.t.flag() {
                         E::Member { obj: obj.bx(), prop: "p".into(), optional: false }
                     } else {
@@ -438,7 +454,16 @@ impl<'t, 'a> Gen<'t, 'a> {
             }
             19 => self.object_lit(d1),
             20 => {
-                let callee = if self.t.flag() { E::id("K") } else { self.ident() };
+                let callee = if self.t.chance(40) {
+                    // `new (a + b).constructor(x)`: the parentheses decide what is constructed
+                    self.tag("new-paren-callee");
+                    let op = if self.t.flag() { self.plus(d1.min(1)) } else { self.method_call(d1.min(1)) };
+                    E::Member { obj: op.paren().bx(), prop: "constructor".into(), optional: false }
+                } else if self.t.flag() {
+                    E::id("K")
+                } else {
+                    self.ident()
+                };
                 let args = self.args(d1);
                 self.tag("new");
                 E::New { callee: callee.bx(), args }
@@ -1589,7 +1614,7 @@ impl<'t, 'a> Gen<'t, 'a> {
                 self.tag("directive");
                 self.tag("multi-directive");
                 // directives that mean something to some engine or tool come first, strictness follows
-                let first = *self.t.pick(&["'use foo'", "'use asm'", "\"use client\"", "'use\\x20strict'"]);
+                let first = *self.t.pick(&["'use foo'", "'use asm'", "\"use client\"", "'use\\x20strict'", "'use \\\nstrict'"]);
                 format!("{first};\n\"use strict\";\n")
             }
             3 => {
@@ -1715,7 +1740,8 @@ impl<'t, 'a> Gen<'t, 'a> {
         let vars: Vec<String> = self.sc().vars.clone();
         let pick = |i: usize| vars[i % vars.len().max(1)].clone();
         if self.t.flag() {
-            let operands: Vec<String> = (0..n).map(|i| if i % 7 == 3 { format!("'k{i}'") } else { pick(i) }).collect();
+            // (every fifth operand is a call: it sits in a temporary, more than ten of them for the longer sums)
+            let operands: Vec<String> = (0..n).map(|i| if i % 7 == 3 { format!("'k{i}'") } else if i % 5 == 1 { format!("h({})", pick(i)) } else { pick(i) }).collect();
             format!("{} = {};", t.print(), operands.join(" + "))
         } else {
             let m = self.method_name();
@@ -2059,6 +2085,11 @@ impl<'t, 'a> Gen<'t, 'a> {
             let e = self.expr(2);
             let body = if e.starts_ambiguous() { format!("({})", e.print()) } else { Self::arg_text(&e) };
             src.push_str(&format!("var top2 = (tp) => {};\n", body));
+        }
+        if self.t.chance(25) {
+            // a string statement in the middle of the file (the second file of a concatenated bundle): not a directive
+            self.tag("mid-file-string-statement");
+            src.push_str("'use strict';\nvar afterMid = 1;\n");
         }
         if module && self.t.flag() {
             src.push_str("export default f;\n");
